@@ -148,6 +148,14 @@ class CHECK(vlib.Check):
                     out.append(("directed", "n=%d|%s" % (m2, body)))
         return out
 
+    def fail_key(self, f):
+        # group (and shrink) by WHAT fails, not by the client number or the Message ids in the detail text
+        import re
+        sig = f.get("signature", "")
+        sig = re.sub(r" (handled|accepted)=\S*", "", sig)
+        sig = re.sub(r"\bc\d+\b", "c#", sig)
+        return (f["kind"], re.sub(r"^\d+ ", "", sig))
+
     def nontrivial(self, case):
         body = case.split("|", 1)[1]
         ops = [o for o in body.split(";") if o]
